@@ -39,6 +39,52 @@ impl<F: Future> Future for Deferred<F> {
     }
 }
 
+/// Cooperative-budget starvation: before every poll of the inner future the task's tokio coop
+/// budget (128 units per task poll) is drained down to a seeded small remainder. Every acquisition
+/// of a tokio primitive (Mutex / RwLock / Semaphore / mpsc / Notify …) consumes one unit and
+/// returns `Pending` (after waking itself) once the budget is gone — so under starvation each of
+/// these `.await`s, even an uncontended one that would never yield on a current-thread runtime,
+/// becomes a scheduling point at which another task can run, as it could on another thread.
+pub struct Starved<F> {
+    inner: Pin<Box<F>>,
+}
+
+impl<F: Future> Starved<F> {
+    pub fn new(f: F) -> Self {
+        Starved { inner: Box::pin(f) }
+    }
+}
+
+impl<F: Future> Future for Starved<F> {
+    type Output = F::Output;
+    fn poll(mut self: Pin<&mut Self>, cx: &mut Context<'_>) -> Poll<F::Output> {
+        // Leave 1..=3 units: at least one primitive operation makes progress per poll.
+        let leave = if ctx::installed() { 1 + ctx::choose("coop.leave", 3) } else { 1 };
+        let mut drained = 0;
+        while drained < 128usize.saturating_sub(leave) {
+            let mut c = std::pin::pin!(tokio::task::consume_budget());
+            // The noop waker keeps an exhausted budget from re-waking us spuriously.
+            let w = futures_noop_waker();
+            let mut ncx = Context::from_waker(&w);
+            if c.as_mut().poll(&mut ncx).is_pending() {
+                break;
+            }
+            drained += 1;
+        }
+        self.inner.as_mut().poll(cx)
+    }
+}
+
+fn futures_noop_waker() -> std::task::Waker {
+    use std::task::{RawWaker, RawWakerVTable, Waker};
+    fn clone(_: *const ()) -> RawWaker {
+        RawWaker::new(std::ptr::null(), &VTABLE)
+    }
+    fn noop(_: *const ()) {}
+    static VTABLE: RawWakerVTable = RawWakerVTable::new(clone, noop, noop, noop);
+    unsafe { Waker::from_raw(RawWaker::new(std::ptr::null(), &VTABLE)) }
+}
+
 /// Spawn a task on the simulation's `LocalSet`, subject to PRNG deferral.
 pub fn spawn<F>(fut: F) -> JoinHandle<F::Output>
 where
